@@ -54,4 +54,14 @@ CHECKS = {
   "ref": "DESIGN.md §5 C09",
   "note": "trusted: Lean kernel; layouts hand-written; the decorator's catch-all is modelled and compared on every malformed input",
   "technique": "Lean 4 proof + malformed-stream differential correspondence"},
+ "C07": {
+  "text": "Lean theorems per writer (names, per-item data, notify-user, update events incl. base64 round trip for any bytes, EOS/CLS, "
+          "failure, credentials, init replies): the line is joinBar of an explicit token list whose length depends only on the shape "
+          "(c07_shape), no token contains the separator/CR/LF so the line splits back (c07_tokens_ok, c07_line_splits), the conforming "
+          "decoder recovers exactly the supplied data (…_decode), and any value of an unsupported type in a scalar slot or list element "
+          "yields the protocol error and no line (…_type_guard, c07_scalar_guards, c07_text_slot_guard, c07_value_guard). Tied by the "
+          "writers differential incl. a type-confusion stream; decoding evaluated on the real lines by the harness's conforming decoder.",
+  "ref": "DESIGN.md §5 C07",
+  "note": "trusted: Lean kernel; Spec/Reply.lean hand-written; floats opaque (repr carried verbatim, round trip is CPython's contract, tested)",
+  "technique": "Lean 4 proof (induction, decide +kernel over the base64 alphabet) + pure differential correspondence"},
 }
